@@ -40,6 +40,8 @@ type Profile struct {
 	// NoWedge keeps out constructs known to wedge or crash the daemon
 	// (known findings), so that other properties' checks are not blocked.
 	NoWedge bool `json:"no_wedge"`
+	// PegPriceX: see Spec.PegPriceX.
+	PegPriceX uint64 `json:"peg_price_x,omitempty"`
 }
 
 const (
@@ -86,7 +88,7 @@ func DefaultProfile(rng *rand.Rand) Profile {
 
 // NewGen prepares a generator; blocks are produced with Step.
 func NewGen(seed uint64, p Profile) *Gen {
-	spec := &Spec{Seed: seed, PriceStep: p.PriceStep}
+	spec := &Spec{Seed: seed, PriceStep: p.PriceStep, PegPriceX: p.PegPriceX}
 	spec.Config = Config{Act: Layout(p.PegnetAct, p.StartEra, p.Gaps), AveragePeriod: p.AvgPeriod, RetryMS: p.RetryMS, WAL: p.WAL, CachePages: p.Cache}
 	spec.First = p.PegnetAct + 1
 	g := &Gen{P: p, R: rand.New(rand.NewSource(int64(seed) ^ 0x5eed)), B: NewBuilder(spec), est: map[factom.FAAddress]map[int]uint64{}}
